@@ -10,8 +10,10 @@ import (
 	"errors"
 	"fmt"
 	"io"
+	"runtime"
 	"runtime/debug"
 	"testing/synctest"
+	_ "unsafe" // nanotime
 
 	"github.com/GoogleCloudPlatform/grpc-gcp-go/grpcgcp"
 	"google.golang.org/grpc"
@@ -27,13 +29,14 @@ type Step struct {
 
 // Case is a generated stream program.
 type Case struct {
-	Property string `json:"property,omitempty"`
-	Create   []int  `json:"create"`     // outcome of the i-th stream creation: 0 ok, 1 error, 2 blocks until the context ends
-	SendErr  int    `json:"sendErr"`    // the fake's n-th SendMsg fails (0 = never)
-	RecvMode int    `json:"recvMode"`   // fake RecvMsg: 0 returns nil at once, 1 blocks until a message is delivered or ctx ends, 2 returns io.EOF
-	Deadline int    `json:"deadlineMs"` // >0: the call's context has a deadline instead of being cancelled explicitly
-	Steps    []Step `json:"steps"`
-	Failure  string `json:"failure,omitempty"`
+	Property    string `json:"property,omitempty"`
+	Create      []int  `json:"create"`          // outcome of the i-th stream creation: 0 ok, 1 error, 2 blocks until the context ends
+	SendErr     int    `json:"sendErr"`         // the fake's n-th SendMsg fails (0 = never)
+	RecvMode    int    `json:"recvMode"`        // fake RecvMsg: 0 returns nil at once, 1 blocks until a message is delivered or ctx ends, 2 returns io.EOF
+	Deadline    int    `json:"deadlineMs"`      // >0: the call's context has a deadline instead of being cancelled explicitly
+	CancelAtErr int    `json:"cancelAtErrCall"` // >0: the context is cancelled right after the library's k-th ctx.Err() call (owns the check-then-wait window)
+	Steps       []Step `json:"steps"`
+	Failure     string `json:"failure,omitempty"`
 }
 
 type userKey struct{}
@@ -125,6 +128,11 @@ func Run(c *Case) (failure string, labels map[string]int, nontrivial bool) {
 		ctx, cancel = context.WithCancel(base)
 	}
 	defer cancel()
+	// libCtx is what the library sees; the harness itself only consults ctx (its own Err() calls must not count)
+	libCtx := ctx
+	if c.CancelAtErr > 0 {
+		libCtx = &errCancelCtx{Context: ctx, k: c.CancelAtErr, cancel: cancel}
+	}
 
 	desc := &grpc.StreamDesc{StreamName: "S", ClientStreams: true, ServerStreams: true}
 	opts := []grpc.CallOption{grpc.WaitForReady(true), grpc.MaxCallRecvMsgSize(7)}
@@ -167,7 +175,7 @@ func Run(c *Case) (failure string, labels map[string]int, nontrivial bool) {
 	}
 	hx.CallDesc.Store("GCPStreamClientInterceptor")
 	hx.InCall.Store(true)
-	cs, err := grpcgcp.GCPStreamClientInterceptor(ctx, desc, nil, "/svc/Method", streamer, opts...)
+	cs, err := grpcgcp.GCPStreamClientInterceptor(libCtx, desc, nil, "/svc/Method", streamer, opts...)
 	if err != nil || cs == nil {
 		fail("GCPStreamClientInterceptor returned %v, %v", cs, err)
 	}
@@ -258,6 +266,8 @@ func Run(c *Case) (failure string, labels map[string]int, nontrivial bool) {
 			if created && contains(fake.recvs, r.arg) {
 				// delegated
 				labels["recv-delegated"]++
+			} else if w.issuedCreated {
+				fail("RecvMsg issued after the underlying stream was created did not reach it (returned %v)", r.err)
 			} else if r.err == nil {
 				fail("RecvMsg(%p) returned nil without reaching the underlying stream", r.arg)
 			} else if !w.issuedCreated && ctx.Err() == nil && !isOneOf(r.err, createErrs) {
@@ -269,6 +279,9 @@ func Run(c *Case) (failure string, labels map[string]int, nontrivial bool) {
 			}
 		case "header":
 			if w.issuedCreated && created {
+				if fake.headers == 0 {
+					fail("Header issued after the underlying stream was created did not reach it (returned %v, %v)", r.val, r.err)
+				}
 				if md, _ := r.val.(metadata.MD); r.err != nil || md.Len() != 1 || md.Get("h")[0] != "1" {
 					fail("Header returned %v,%v; the underlying stream returned %v", r.val, r.err, fake.hdr)
 				}
@@ -303,6 +316,13 @@ func Run(c *Case) (failure string, labels map[string]int, nontrivial bool) {
 			case r := <-w.res:
 				complete(w, r)
 			default:
+			}
+		}
+		if ctx.Err() != nil {
+			for i, w := range ws {
+				if w.busy && !w.issuedCreated {
+					fail("the call's context has ended (%v) but goroutine %d is still blocked in %s issued before stream creation", ctx.Err(), i, w.pending)
+				}
 			}
 		}
 	}
@@ -417,7 +437,7 @@ func Run(c *Case) (failure string, labels map[string]int, nontrivial bool) {
 				fail("RecvMsg is blocked although the underlying stream exists and answers at once")
 			}
 			if call == "send" && !creating {
-				fail("SendMsg is blocked although stream creation does not block")
+				fail("%s: SendMsg is blocked although stream creation does not block (creations=%d, ctx=%v)", what, creations, ctx.Err())
 			}
 		} else if call == "recv" && !created && ctx.Err() == nil && len(createErrs) == 0 {
 			fail("RecvMsg returned before the stream existed (no creation error, context alive)")
@@ -449,6 +469,35 @@ func Run(c *Case) (failure string, labels map[string]int, nontrivial bool) {
 }
 
 var lastCreateReq interface{}
+
+// nanotime is the real monotonic clock (time.Now is virtual inside a bubble).
+//
+//go:linkname nanotime runtime.nanotime
+func nanotime() int64
+
+// errCancelCtx cancels itself right after its k-th Err() call: a deterministic way to place the
+// end of the context inside the library's check-then-wait windows.
+type errCancelCtx struct {
+	context.Context
+	n, k   int
+	cancel context.CancelFunc
+}
+
+func (c *errCancelCtx) Err() error {
+	e := c.Context.Err()
+	c.n++
+	if c.n == c.k {
+		c.cancel()
+		// let whoever watches the context run now, while the caller is still between its check and
+		// whatever it does next (it may hold a lock): this is the window the harness wants to own
+		for i := 0; i < 200; i++ {
+			runtime.Gosched()
+		}
+		for t0 := nanotime(); nanotime()-t0 < 50_000; {
+		}
+	}
+	return e
+}
 
 type failText string
 
